@@ -39,11 +39,16 @@ def run(tier, seed):
     nrand = 50000 if tier == 'thorough' else 4000
     for _ in range(nrand):
         ns = rnd.randint(2, 12 if rnd.random() < 0.3 else 4)
+        mixed = rnd.random() < 0.3
         cons = []
         for k in range(ns):
             u = rnd.choice('abcdef'[:rnd.randint(1, 6)])
             n = rnd.randint(0, 40 if rnd.random() < 0.1 else 6)
             ts = sorted(rnd.randint(1, rnd.choice([3, 8, 50, 3000])) for _ in range(n))
+            if mixed:
+                # all-day constituents (DTSTART;VALUE=DATE, code day * 100000) among timed ones over the same days: an all-day occurrence goes before every timed one of its day
+                if rnd.random() < 0.45: ts = sorted(rnd.randint(1, 4) * 100000 for _ in range(n))
+                else: ts = sorted(rnd.randint(1, 4) * 100000 + rnd.choice([1, 2, 3600, 43200, 86399, rnd.randint(1, 86399)]) for _ in range(n))
             cons.append([[t, u] for t in ts])
         tot = sum(len(c) for c in cons)
         ops = ''.join(rnd.choice('NPPP') for _ in range(tot + rnd.randint(0, 4))) + 'PP'
@@ -67,7 +72,7 @@ def run(tier, seed):
     cov = {'states': e1['states'], 'transitions': e1['transitions'], 'traces_validated_against_impl': v['n'],
            'samples': [json.loads(outl[len(outl) // 3]), json.loads(outl[-1])] if outl else [],
            'evaluations': v['n'], 'distinct_nontrivial': distinct,
-           'rule': 'one case = one run of the real echs_evstrm_vmux merge: constituent streams (each a parsed VEVENT with an RDATE list and its UID) plus an op string of peeks/pops. Model part: a set of paths through the MuxE1 state graph that traverses every edge (every reachable transition of the bounded model is executed on the real code). Random part: 2..12 constituents, up to 40 occurrences, shared UIDs, ties',
+           'rule': 'one case = one run of the real echs_evstrm_vmux merge: constituent streams (each a parsed VEVENT with an RDATE list and its UID) plus an op string of peeks/pops. Model part: a set of paths through the MuxE1 state graph that traverses every edge (every reachable transition of the bounded model is executed on the real code). Random part: 2..12 constituents, up to 40 occurrences, shared UIDs, ties; in three of ten all-day constituents (VALUE=DATE) are merged with timed ones over the same days',
            'model_graph_edges': nedges, 'model_graph_edges_replayed': ncov, 'model_scripts': nmodel, 'random_scripts': nrand,
            'mismatching_runs': v['nbad'], 'skipped': v['nskip'], 'model_drift_runs': ndrift,
            'e1_constants': 'up to 3 constituents x up to %d occurrences over times 1..3 x uids {a,b}; <= 2 peeks in a row; until 2 end-of-stream pops' % (3 if tier == 'thorough' else 2),
